@@ -266,3 +266,32 @@ fn replay(case: &Value, rec: &mut Rec) {
     let phases: Vec<&str> = vec![phase.as_str()];
     run_config(rec, (t, rc, rac), &[state], &phases);
 }
+
+/// fuzz entry: configuration selector + an access script (kind, address, value)
+pub fn fuzz_bus(data: &[u8]) -> Result<(), String> {
+    if data.len() < 4 {
+        return Ok(());
+    }
+    let t = TYPES[data[0] as usize % TYPES.len()];
+    let rc = [0u8, 1, 2, 3, 4, 0x52][data[1] as usize % 6];
+    let rac = RAM_CODES[data[2] as usize % RAM_CODES.len()];
+    let mut m = make(t, rc, rac);
+    guarded(|| {
+        for ch in data[3..].chunks_exact(4) {
+            let addr = u16::from_le_bytes([ch[1], ch[2]]);
+            match ch[0] % 6 {
+                0 => {
+                    m.read(addr);
+                }
+                1 => m.write(addr, ch[3]),
+                2 => {
+                    m.read_word(addr);
+                }
+                3 => m.write_word(addr, (ch[3] as u16) << 8 | ch[3] as u16),
+                4 => m.write(addr & 0x7fff, ch[3]),
+                _ => m.run_clocks(4 * (1 + ch[3] as usize)),
+            }
+        }
+    })
+    .map_err(|e| format!("bus access panicked on cartridge type {:#04x}, ROM code {:#04x}, RAM code {}: {}", t, rc, rac, e))
+}
